@@ -14,7 +14,7 @@ from harness import common, gen, codec, sigs, wire, sexp_types, containers as C
 from harness.props import c19
 
 from pyasn1 import error
-from pyasn1.type import univ, base
+from pyasn1.type import univ, base, tag
 from pyasn1.codec.ber import encoder as ber_encoder, decoder as ber_decoder
 from pyasn1.codec.der import encoder as der_encoder, decoder as der_decoder
 from pyasn1.codec.cer import encoder as cer_encoder, decoder as cer_decoder
@@ -326,6 +326,66 @@ def check_template_clones(rep):
                 continue
             if got2 != want2:
                 rep.fail('bytes-differ-template-clone', 'nested %s: completed after %s encodes as %s, built directly %s' % (cls.__name__, cname, got2, want2), case)
+
+
+def check_presence_constrained_reuse(rep):
+    """a record type whose constraint looks at which members are there (WITH COMPONENTS { ttl ABSENT } / { note PRESENT }): the
+    encoders have read access only - the value encodes the same the second, third ... time, after decoding, after a copy by
+    value, after the native encoder has walked it; a read-only use never makes an absent DEFAULT / OPTIONAL member appear"""
+    from pyasn1.type import namedtype, constraint, char
+    from pyasn1.codec.ber import encoder as ber_encoder, decoder as ber_decoder
+    from pyasn1.codec.native import encoder as nat_encoder
+
+    def schema(cls, wc):
+        return cls(componentType=namedtype.NamedTypes(
+            namedtype.NamedType('id', univ.Integer()),
+            namedtype.DefaultedNamedType('ttl', univ.Integer(60).subtype(implicitTag=tag.Tag(tag.tagClassContext, tag.tagFormatSimple, 0))),
+            namedtype.OptionalNamedType('note', char.UTF8String())), subtypeSpec=wc)
+    constraints = {
+        'ttl ABSENT': (constraint.WithComponentsConstraint(('ttl', constraint.ComponentAbsentConstraint())), {'id': 1}),
+        'ttl ABSENT, note ABSENT': (constraint.WithComponentsConstraint(('ttl', constraint.ComponentAbsentConstraint()),
+                                                                       ('note', constraint.ComponentAbsentConstraint())), {'id': 1}),
+        'note PRESENT, ttl ABSENT': (constraint.WithComponentsConstraint(('note', constraint.ComponentPresentConstraint()),
+                                                                        ('ttl', constraint.ComponentAbsentConstraint())), {'id': 1, 'note': u'x'}),
+    }
+    uses = {
+        'der': lambda o: enc(der_encoder, o), 'cer': lambda o: enc(cer_encoder, o), 'ber': lambda o: enc(ber_encoder, o),
+        'ber-indef': lambda o: enc(ber_encoder, o, defMode=False), 'native': lambda o: nat_encoder.encode(o) and None,
+        'print': lambda o: o.prettyPrint() and None, 'compare': lambda o: (o == o) and None, 'len-keys': lambda o: (len(o), list(o.keys())) and None,
+    }
+    for cls in (univ.Sequence, univ.Set):
+        for cname, (wc, members) in sorted(constraints.items()):
+            def fresh():
+                o = schema(cls, wc).clone()
+                for k, x in members.items():
+                    o[k] = x
+                return o
+            want = enc(der_encoder, fresh())
+            if want.startswith('err'):
+                rep.fail('presence-constrained-fresh-refused', 'a fresh %s value of the type (%s) is refused: %s' % (cls.__name__, cname, want),
+                         {'kind': 'presence-constrained', 'container': cls.__name__, 'constraint': cname})
+                continue
+            starts = {'built': fresh, 'decoded': lambda: ber_decoder.decode(bytes.fromhex(want), asn1Spec=schema(cls, wc))[0],
+                      'copied': lambda: fresh().clone(cloneValueFlag=True)}
+            for sname, start in sorted(starts.items()):
+                for first in sorted(uses):
+                    for second in ('der', 'cer', 'ber'):
+                        rep.evaluations += 1
+                        rep.count('presence-constrained-reuse')
+                        case = {'kind': 'presence-constrained', 'container': cls.__name__, 'constraint': cname, 'start': sname, 'uses': [first, second, 'der']}
+                        try:
+                            o = start()
+                            uses[first](o)
+                            uses[second](o)
+                            got = enc(der_encoder, o)
+                            copy_got = enc(der_encoder, o.clone(cloneValueFlag=True))
+                        except Exception as ex:  # noqa
+                            rep.fail('read-only-use-changes-value', '%s (%s), %s, after %s and %s: the DER encoder then fails with %r; a fresh value encodes as %s' % (
+                                cls.__name__, cname, sname, first, second, ex, want), case)
+                            continue
+                        if got != want or copy_got != want:
+                            rep.fail('read-only-use-changes-value', '%s (%s), %s, after %s and %s encodes as %s (its copy %s), a fresh value as %s' % (
+                                cls.__name__, cname, sname, first, second, got, copy_got, want), case)
 
 
 def derived_scalar(t, v, schema):
@@ -723,6 +783,7 @@ def run(rep, tier, seed):
     check_reads_between_handle_and_fill(rep)
     rep.case('template clones', nontrivial=True)
     check_template_clones(rep)
+    check_presence_constrained_reuse(rep)
     for ts, vs in ROUTE_CORPUS:
         t = sexp_types.ty_of_sexp(gen.parse_sexps(ts)[0])
         v = gen.val_of_sexp(gen.parse_sexps(vs)[0])
